@@ -112,10 +112,18 @@ theorem getNat_ofList (l : List V) (k : Nat) :
     | zero => rfl
     | succ k => simp [getNat, ih]
 
+@[simp] theorem getItem_nil (i : V) : getItem .nil i = getItemSeq .nil i := rfl
+@[simp] theorem getItem_cons (a b i : V) : getItem (.cons a b) i = getItemSeq (.cons a b) i := rfl
+@[simp] theorem setItem_nil (i v : V) : setItem .nil i v = setItemSeq .nil i v := rfl
+@[simp] theorem setItem_cons (a b i v : V) : setItem (.cons a b) i v = setItemSeq (.cons a b) i v := rfl
+theorem getItem_ofList (l : List V) (i : V) : getItem (ofList l) i = getItemSeq (ofList l) i := by
+  cases l <;> rfl
+
 theorem getItem_ofList_nat (l : List V) (k : Nat) :
     getItem (ofList l) (.int (k : Int)) =
       match l[k]? with | some v => .ok v | Option.none => .error .indexError := by
-  unfold getItem
+  rw [getItem_ofList]
+  unfold getItemSeq
   simp [getNat_ofList]
   
 
